@@ -314,6 +314,12 @@ pub fn seeded_keygen_ref(seed: &[u8]) -> (Fr, Fr) {
     (s, poseidon_ref(&[s]))
 }
 
+/// The first `n` field elements of the seeded generator's stream (what any number of draws from it would return).
+pub fn seeded_stream_ref(seed: &[u8], n: usize) -> Vec<Fr> {
+    let mut rng = ChaRng::new(&keccak256_ref(seed));
+    (0..n).map(|_| fr_rand_ref(&mut rng)).collect()
+}
+
 pub fn extended_seeded_keygen_ref(seed: &[u8]) -> (Fr, Fr, Fr, Fr) {
     let mut rng = ChaRng::new(&keccak256_ref(seed));
     let t = fr_rand_ref(&mut rng);
